@@ -130,7 +130,7 @@ func init() {
 		// directory that does not exist …; through RunCommand and through InTotoRun (which must not
 		// produce a link for a command that never ran)
 		base := filepath.Join(scratch(), "runerr")
-		os.RemoveAll(base)
+		safeRemoveAll(base)
 		os.MkdirAll(base, 0o755)
 		argv, runDir := []string{"sh", "-c", "exit 3"}, ""
 		switch str(a["class"]) {
